@@ -59,9 +59,12 @@ TMk == /\ Is("mk") /\ kind[Ev.id] = "none"
 TDrop == /\ Is("drop") /\ reach' = [reach EXCEPT ![Ev.id] = FALSE]
          /\ Adv /\ lastb' = 2000000000 /\ UNCHANGED <<kind, iso, fin, rel, ctx, nctx, dead, ord, killedc>>
 (* setmetatable again on a marked value: it becomes the most recently marked one and may be finalised (once) again *)
+(* the context that marks a value owns it from then on (it is finalised when THAT context is closed, at the latest);
+   the program holds a reference to it, since it just passed it to setmetatable *)
 TRemark == /\ Is("remark") /\ kind[Ev.id] # "none"
            /\ ord' = [ord EXCEPT ![Ev.id] = l] /\ fin' = [fin EXCEPT ![Ev.id] = 0]
-           /\ Adv /\ lastb' = 2000000000 /\ UNCHANGED <<kind, iso, reach, rel, ctx, nctx, dead, killedc>>
+           /\ iso' = [iso EXCEPT ![Ev.id] = Cur] /\ reach' = [reach EXCEPT ![Ev.id] = TRUE]
+           /\ Adv /\ lastb' = 2000000000 /\ UNCHANGED <<kind, rel, ctx, nctx, dead, killedc>>
 TCollect == /\ Is("collect") /\ Adv /\ lastb' = 2000000000 /\ UNCHANGED <<kind, iso, reach, fin, rel, ctx, nctx, dead, ord, killedc>>
 TEnter == /\ Is("enter") /\ nctx' = nctx + 1 /\ ctx' = Append(ctx, nctx + 1)
           /\ Adv /\ lastb' = 2000000000 /\ UNCHANGED <<kind, iso, reach, fin, rel, dead, ord, killedc>>
